@@ -267,6 +267,11 @@ pub fn run_c03(ctx: &mut Ctx) {
         { let mut v = base.clone(); issuer_auth_mut(&mut v)[0] = Value::Bytes(vec![0xa1, 0x01, 0x38, 0x22]); go(ctx, "alg-es384", &v); }
         { let mut v = base.clone(); issuer_auth_mut(&mut v)[0] = Value::Bytes(vec![]); go(ctx, "alg-removed", &v); }
         { let mut v = base.clone(); issuer_auth_mut(&mut v)[0] = Value::Bytes(vec![0xa2, 0x01, 0x26, 0x04, 0x41, 0x01]); go(ctx, "protected-extra-label", &v); }
+        // the SAME header map in another CBOR form, substituted after signing: the signature covers the
+        // bytes `a1 01 26`, not these (two-byte -7, two-byte label, indefinite-length map, one-byte map head)
+        for (name, bytes) in [("alg-two-byte-negative", vec![0xa1u8, 0x01, 0x38, 0x06]), ("label-two-byte", vec![0xa1, 0x18, 0x01, 0x26]),
+                              ("indefinite-map", vec![0xbf, 0x01, 0x26, 0xff]), ("map-head-one-byte", vec![0xb8, 0x01, 0x01, 0x26])] {
+            let mut v = base.clone(); issuer_auth_mut(&mut v)[0] = Value::Bytes(bytes); go(ctx, &format!("protected-reencoded-{name}"), &v); }
         { let mut v = base.clone(); if let Value::Map(m) = &mut issuer_auth_mut(&mut v)[1] { m.retain(|(k, _)| k.as_integer().map(i128::from) != Some(33)); } go(ctx, "x5chain-removed", &v); }
         { let mut v = base.clone(); if let Value::Map(m) = &mut issuer_auth_mut(&mut v)[1] { for (k, x) in m.iter_mut() { if k.as_integer().map(i128::from) == Some(33) { *x = Value::Text("nope".into()); } } } go(ctx, "x5chain-wrong-type", &v); }
         { let mut v = base.clone(); if let Value::Map(m) = &mut issuer_auth_mut(&mut v)[1] { for (k, x) in m.iter_mut() { if k.as_integer().map(i128::from) == Some(33) { if let Value::Bytes(b) = x { b.truncate(b.len() / 2); } } } } go(ctx, "x5chain-truncated-der", &v); }
